@@ -20,6 +20,17 @@ FIXED = {  # key -> (property, commit subject prefix)
   "C16:exact-fit-dropped:_equality_connect": ("C16", "fix: equality connect/weld rows that fit exactly"),
   "C16:exact-fit-dropped:_equality_weld": ("C16", "fix: equality connect/weld rows that fit exactly"),
   "C08:implicit:rne-derivative-sign": ("C08", "fix: implicit integrator adds the RNE velocity derivative"),
+  "C08:rk4:stage-time-not-advanced": ("C08", "fix: rungekutta4 advances d.time"),
+  "C12:constraint:stale-cvel:connect-weld": ("C12", "fix: com_vel runs before make_constraint"),
+  "C37:forward:not-idempotent:equality-jdot-stale-cvel": ("C37", "fix: com_vel runs before make_constraint"),
+  "C20:plane_cylinder:degenerate-axis-world-x": ("C20", "fix: plane-cylinder uses the cylinder's local x axis"),
+  "C03:_actuator_force:dyntype-user-actearly-unassigned-act": ("C03", "fix: actearly with dyntype=user"),
+  "C03:fwd_actuation:actuatorgroupdisable-ignored": ("C03", "fix: put_model rejects models that disable actuator groups"),
+  "C04:contact_material_params:priority-direct-solref": ("C04", "fix: the higher-priority geom's solref"),
+  "C04:capsule_capsule:in-gap-contact-dropped": ("C04", "fix: capsule-capsule keeps contacts inside the gap"),
+  "C04:broadphase:explicit-pair-margin-ignored": ("C04", "fix: the broadphase filter does not reject explicit contact pairs"),
+  "C18:filter:explicit-pair-margin-ignored": ("C18", "fix: the broadphase filter does not reject explicit contact pairs"),
+  "C19:explicit-pair:pair-margin-ignored-by-broadphase-filter": ("C19", "fix: the broadphase filter does not reject explicit contact pairs"),
 }
 log = subprocess.check_output(["git", "-C", "/repo", "log", "--format=%h %s"]).decode().splitlines()
 def sha_for(prefix):
